@@ -47,6 +47,10 @@ def make(c, stochastic):
   if k == "relu_po2_leaky":        # the leaky branch takes the same options as the positive one
     mv = 2.0 ** c["mvk"] if c["hasmv"] else None
     return Q.quantized_relu_po2(c["bits"], max_value=mv, negative_slope=0.25, use_stochastic_rounding=stochastic)
+  if k in ("po2_floor", "relu_po2_floor"):  # log2_rounding='floor': inference = the deterministic configuration
+    mv = 2.0 ** c["mvk"] if c["hasmv"] else None
+    ctor = Q.quantized_po2 if k == "po2_floor" else Q.quantized_relu_po2
+    return ctor(c["bits"], max_value=mv, use_stochastic_rounding=stochastic, log2_rounding="floor")
   if k in ("po2_quad", "relu_po2_quad"):    # quadratic_approximation: only "inference = the deterministic configuration"
     mv = 2.0 ** c["mvk"] if c["hasmv"] else None
     ctor = Q.quantized_po2 if k == "po2_quad" else Q.quantized_relu_po2
@@ -69,7 +73,7 @@ def inputs(c, rnd, tier):
     x = cell_inputs(c, rnd, tier == "thorough" or c["bits"] <= 4)
     extra = f32([rnd.uniform(-3, 3) for _ in range(40)])
     return [np.concatenate([x[np.abs(x) < 1e5], extra])]
-  if c["fam"] == "po2" or c.get("kind", "").endswith("_quad") or c.get("kind") == "relu_po2_leaky":
+  if c["fam"] == "po2" or c.get("kind", "").endswith(("_quad", "_floor")) or c.get("kind") == "relu_po2_leaky":
     xs = []
     for k in range(-12, 10):
       for m in (1.0, 1.0625, 1.25, 1.5, 1.75, 1.9375):
